@@ -130,6 +130,25 @@ func c02Devs() []c02Dev {
 		add("ext", "single-"+e.Kind, func(c *refcfg.CertCfg, _ *c02Aux) { c.Exts = []refcfg.Ext{e} })
 	}
 	add("ext", "all-kinds", func(c *refcfg.CertCfg, _ *c02Aux) { c.Exts = c02AllKinds() })
+	// list-valued bodies with several members of different lengths (a shorter one before a longer one and the reverse)
+	add("ext", "aia-two-responders-short-long", func(c *refcfg.CertCfg, _ *c02Aux) {
+		c.Exts = []refcfg.Ext{{Kind: refcfg.KAIA, AIA: refcfg.Strs("http://o.example", "http://ocsp.responder.example.org/a/longer/path")}}
+	})
+	add("ext", "aia-three-responders-long-short-equal", func(c *refcfg.CertCfg, _ *c02Aux) {
+		c.Exts = []refcfg.Ext{{Kind: refcfg.KAIA, AIA: refcfg.Strs("http://ocsp.responder.example.org/a/longer/path", "http://o.example", "http://p.example")}}
+	})
+	add("ext", "san-five-names", func(c *refcfg.CertCfg, _ *c02Aux) {
+		c.Exts = []refcfg.Ext{{Kind: refcfg.KSAN, SAN: &[]refcfg.GeneralName{{Type: "dns", Name: "a.example"}, {Type: "ip", Name: "0.0.0.0"}, {Type: "mail", Name: "someone.with.a.long.name@mail.example.org"}, {Type: "dns", Name: "b.example"}, {Type: "ip", Name: "255.255.255.255"}}}}
+	})
+	add("ext", "eku-five-usages", func(c *refcfg.CertCfg, _ *c02Aux) {
+		c.Exts = []refcfg.Ext{{Kind: refcfg.KEKU, EKU: refcfg.Strs("serverAuth", "1.2.3.4.5.6.7.8.9.10.11.12", "clientAuth", "2.5", "OCSPSigning")}}
+	})
+	add("ext", "three-policies-mixed-qualifiers", func(c *refcfg.CertCfg, _ *c02Aux) {
+		c.Exts = []refcfg.Ext{{Kind: refcfg.KCP, CP: &[]refcfg.Policy{
+			{Oid: "1.2.3.4", Qualifiers: &[]refcfg.Qualifier{{Cps: refcfg.S("http://c.example")}, {Cps: refcfg.S("http://cps.example.org/a/much/longer/location")}}},
+			{Oid: "1.2.3.4.5.6.7"},
+			{Oid: "2.5.29.32.0", Qualifiers: &[]refcfg.Qualifier{{Notice: &refcfg.UserNotice{Text: refcfg.S("short")}}, {Notice: &refcfg.UserNotice{Organization: refcfg.S("An Organisation"), Numbers: &[]int{1, 20, 300}, Text: refcfg.S("a longer explicit text")}}}}}}}
+	})
 	add("ext", "empty-list", func(c *refcfg.CertCfg, _ *c02Aux) { c.Exts, c.ExtsPresent = nil, true })
 	add("ext", "keyUsage-empty-set", func(c *refcfg.CertCfg, _ *c02Aux) { c.Exts = []refcfg.Ext{{Kind: refcfg.KKU, KU: refcfg.Strs()}} })
 	add("ext", "keyUsage-only-first-bit", func(c *refcfg.CertCfg, _ *c02Aux) {
